@@ -22,7 +22,7 @@ TolMs == 2      \* every logged time is rounded to 1 ms: a difference of two of 
 TInit == /\ l = 1 /\ viol = <<>> /\ hdr = <<>> /\ trs = <<>> /\ est = <<>> /\ prev = <<>> /\ phase = "setup"
          /\ stats = [cases |-> 0, nets |-> 0, walks |-> 0, snaps |-> 0, results_ok |-> 0, results_err |-> 0,
                      est_err |-> 0, est_panic |-> 0, skipped |-> 0, committed_unstable |-> 0, not_quiet |-> 0,
-                     auth_disagree |-> 0, waits |-> 0, tau_checked |-> 0, tau_drift |-> 0, bind_base |-> 0, bind_spacing |-> 0, bind_flip |-> 0, bind_lock |-> 0, bind_lead |-> 0, opp_pairs |-> 0, follow_pairs |-> 0, lock_pairs |-> 0]
+                     auth_disagree |-> 0, not_walk |-> 0, blocked_disagree |-> 0, waits |-> 0, tau_checked |-> 0, tau_drift |-> 0, bind_base |-> 0, bind_spacing |-> 0, bind_flip |-> 0, bind_lock |-> 0, bind_lead |-> 0, opp_pairs |-> 0, follow_pairs |-> 0, lock_pairs |-> 0]
          /\ auth = <<>> /\ route = <<>> /\ pos = <<>> /\ T = <<>> /\ fixed = <<>>
 
 Names(checks) == LET F == SelectSeq(checks, LAMBDA c : ~c[2]) IN [i \in 1..Len(F) |-> F[i][1]]
@@ -66,6 +66,14 @@ AuthAgreesRec(s) ==
      \A w \in Windows(s.plan[t]) :
         \E i \in 1..Len(s.auth[w.link]) :
            LET a == s.auth[w.link][i] IN a[1] = t /\ a[2] = w.ae /\ a[3] = w.ax /\ a[4] = w.ce /\ a[5] = w.cx
+\* the blocked table names, for the flip and every lockout partner of a link, a train that currently holds it
+\* (an authority whose tail has not left: flag a[6] = 1) whenever it names a train at all, and every held link blocks its flip
+BlockedAgreesRec(s) ==
+  /\ \A bl \in 1..Len(s.blocked) : s.blocked[bl] # 0 =>
+        \E k \in ({hdr.flip[bl]} \cup {x \in 1..Len(s.blocked) : bl \in RangeOf(hdr.lock[x])}) :
+           \E i \in 1..Len(s.auth[k]) : s.auth[k][i][1] = s.blocked[bl] /\ s.auth[k][i][6] = 1
+  /\ \A k \in 1..Len(s.auth) : \A i \in 1..Len(s.auth[k]) :
+        (s.auth[k][i][6] = 1 /\ Unfinished(s, s.auth[k][i][1])) => s.blocked[hdr.flip[k]] # 0
 CountPairs(plans, P(_, _)) ==
   Cardinality({<<t, u, a, b>> \in UNION {{<<t, u, a, b>> : a \in Windows(plans[t]), b \in Windows(plans[u])} :
                                          t \in 1..Len(plans), u \in 1..Len(plans)} : t # u /\ P(a, b)})
@@ -138,6 +146,8 @@ Snap == /\ R.ev = "Snap"
                  !.committed_unstable = @ + (IF prev = <<>> \/ CommittedStableOf(prev.plan, prev.fixed, s.plan) THEN 0 ELSE 1),
                  !.not_quiet = @ + (IF s.fixed = s.free THEN 0 ELSE 1),
                  !.auth_disagree = @ + (IF AuthAgreesRec(s) THEN 0 ELSE 1),
+                 !.not_walk = @ + (IF Len(est) # Len(s.plan) \/ PlanIsWalkOf(est, s.plan) THEN 0 ELSE 1),
+                 !.blocked_disagree = @ + (IF BlockedAgreesRec(s) THEN 0 ELSE 1),
                  !.waits = @ + (IF s.kind = "final" THEN Waits(s.plan) ELSE 0),
                  !.opp_pairs = @ + (IF s.kind = "final" THEN CountPairs(s.plan, LAMBDA a, b : b.link = hdr.flip[a.link]) ELSE 0),
                  !.lock_pairs = @ + (IF s.kind = "final" THEN CountPairs(s.plan, LAMBDA a, b : b.link \in RangeOf(hdr.lock[a.link])) ELSE 0),
@@ -153,7 +163,8 @@ Result == /\ R.ev = "Result"
                                      <<"ResultIsFinalPlan", (prev # <<>>) => ResultIsFinalPlanOf(prev.plan, R.plan)>>,
                                      <<"AllTimed", (prev # <<>>) => AllTimedOf(prev.plan)>>,
                                      <<"AllCommitted", (prev # <<>>) => \A t \in 1..Len(prev.plan) : prev.fixed[t] = Len(prev.plan[t])>>,
-                                     <<"FreeRun", (prev # <<>> /\ Len(est) = Len(prev.plan)) => FreeRunOf(est, prev.plan, TolMs)>> >>))
+                                     <<"FreeRun", (prev # <<>> /\ Len(est) = Len(prev.plan)) => FreeRunOf(est, prev.plan, TolMs)>>,
+                                     <<"PlanIsWalk", (prev # <<>> /\ Len(est) = Len(prev.plan)) => PlanIsWalkOf(est, prev.plan)>> >>))
                   /\ stats' = [stats EXCEPT !.results_ok = @ + 1]
              ELSE /\ Report(Names(<< <<"ErrNamesTrains", Len(R.named) >= 1>> >>))
                   /\ stats' = [stats EXCEPT !.results_err = @ + 1]
